@@ -337,9 +337,33 @@ def check_own_colour(prog: Program, res: Result) -> None:
         res.unrecognised("R-OWN-COLOUR", inst, fs.loc(),
                          "construction of the synthesised permutation group")
     inst = "stereo_morgan_generator: every atom gets an atom-stereo contribution"
-    if "atoms_without_atom_stereo = set(smg.atoms) - atoms_with_atom_stereo" in txt \
-            and "for atom in atoms_without_atom_stereo" in txt:
+    def complement_loop() -> bool:
+        """a loop (or comprehension) over `set(<graph>.atoms) - <atoms that
+        have a descriptor>`, under any names"""
+        diffs = {}
+        for n in ast.walk(fs.node):
+            if isinstance(n, ast.Assign) and len(n.targets) == 1 and \
+                    isinstance(n.targets[0], ast.Name) and isinstance(
+                    n.value, ast.BinOp) and isinstance(n.value.op, ast.Sub) \
+                    and ".atoms" in norm(n.value.left):
+                diffs[n.targets[0].id] = n
+        for n in ast.walk(fs.node):
+            if isinstance(n, (ast.For, ast.comprehension)):
+                it = n.iter
+                if isinstance(it, ast.Name) and it.id in diffs:
+                    return True
+                if isinstance(it, ast.BinOp) and isinstance(
+                        it.op, ast.Sub) and ".atoms" in norm(it.left):
+                    return True
+        return False
+    if ("atoms_without_atom_stereo = set(smg.atoms) - atoms_with_atom_stereo"
+            in txt and "for atom in atoms_without_atom_stereo" in txt) or \
+            complement_loop():
         res.ok("R-OWN-COLOUR", inst, fs.loc())
+    elif re.search(r"\.atoms\b", txt) and ("- " in txt or "difference" in txt
+                                            or "not in" in txt):
+        res.unrecognised("R-OWN-COLOUR", inst, fs.loc(),
+                         "how the atoms without a descriptor are enumerated")
     else:
         res.bad("R-OWN-COLOUR", f"{fs.short}: coverage", fs.loc(),
                 f"{inst}: atoms without a descriptor are not given a "
@@ -468,6 +492,10 @@ def reachable(prog: Program, roots: list[str]) -> list:
         seen.add(q)
         fi = prog.functions[q]
         out.append(fi)
+        if fi.name == "label_hash":
+            # what label_hash calls is judged branch by branch by R-HASH-PURE
+            # (only its ('atom_type',) branch is reachable from the hashes)
+            continue
         for n in ast.walk(fi.node):
             if isinstance(n, ast.Name) and f"{MOD}:{n.id}" in prog.functions:
                 work.append(f"{MOD}:{n.id}")
@@ -499,6 +527,18 @@ def check_hash_pure(prog: Program, res: Result) -> None:
         if body is not None:
             body_calls = [call_name(n) for b in body for n in ast.walk(b)
                           if isinstance(n, ast.Call)]
+            # ... including what the branch calls in this module
+            seen_, work_ = set(), [c for c in body_calls if c]
+            while work_:
+                c_ = work_.pop()
+                q_ = f"{MOD}:{c_}"
+                if q_ in seen_ or q_ not in prog.functions:
+                    continue
+                seen_.add(q_)
+                sub = [call_name(n) for n in ast.walk(prog.functions[q_].node)
+                       if isinstance(n, ast.Call)]
+                body_calls += sub
+                work_ += [x for x in sub if x]
             branch_ok = not any(c in ("hash", "id", "repr") for c in body_calls)
     inst = "label_hash: ('atom_type',) branch is hash()-free"
     if branch_ok:
@@ -952,6 +992,9 @@ def check_refine_progress(prog: Program, res: Result) -> None:
         fi = _fn(prog, fname)
         for r in ast.walk(fi.node):
             if isinstance(r, ast.Return):
+                if any(isinstance(a, (ast.FunctionDef, ast.Lambda))
+                       and a is not fi.node for a in ancestors(r)):
+                    continue        # return of a local helper function
                 guards = [norm(a.test) for a in ancestors(r)
                           if isinstance(a, ast.If)]
                 inst = f"{fi.short}: early return under {guards}"
